@@ -61,3 +61,98 @@ def _populate_rainfall_intensity(cursor, time_grid, time_step):
     requires(not db_sealed())
     requires(len(time_grid) >= 2)
     modifies("__db__")
+
+
+# --------------------------------------------------------------------------- populate_water_level (C10)
+
+@spec
+def is_gap(t, mstep, s):
+    """Source samples s and s+1 are separated by more than the minimal step of the record."""
+    return t[s + 1] - t[s] != mstep
+
+
+@spec
+def in_gap(t, mstep, e):
+    """Instant e lies strictly inside a gap of the source record."""
+    return exists(0, len(t) - 1, lambda s: is_gap(t, mstep, s) and t[s] < e and e < t[s + 1])
+
+
+@spec
+def separated(t, mstep, e1, e2):
+    """A gap of the source record lies between instants e1 <= e2."""
+    return exists(0, len(t) - 1, lambda s: is_gap(t, mstep, s) and e1 <= t[s] and t[s + 1] <= e2)
+
+
+@spec
+def bracketed(t, z, e, v):
+    """v is the straight-line interpolation at e between two adjacent source measurements that bracket e."""
+    return exists(0, len(t) - 1, lambda s: t[s] <= e and e <= t[s + 1]
+                  and v == z[s] + (e - t[s]) * (z[s + 1] - z[s]) / (t[s + 1] - t[s]))
+
+
+@spec
+def st_start(T, t, gaps, k):
+    return T[0] if k == 0 else t[gaps[k - 1] + 1]
+
+
+@spec
+def st_end(T, t, gaps, k):
+    return T[len(T) - 1] if k == len(gaps) else t[gaps[k]]
+
+
+@contract("spowtd.load:populate_water_level", db=True, args={"cursor": "cursor", "time_grid": "list[int]"}, returns="none",
+          ghost_results={"g_t": "array[int]", "g_z": "list[real]", "g_min": "int", "g_lab": "array[int]", "g_src": "array[int]"})
+def _populate_water_level(cursor, time_grid):
+    """C10, third and fourth sentence.  g_t / g_z: the staged source record; g_min: its minimal step;
+    g_lab: the label of every grid instant (-1 = none); g_src: the positions of the labelled instants.
+    * an instant is left without label exactly when it lies strictly inside a gap of the source record;
+    * two labelled instants carry the same label exactly when no gap separates them;
+    * the label updates are the labelled instants in order; the water-level rows are the labelled instants
+      except the closing one, in order, each with the straight-line interpolation between the two adjacent
+      source measurements that bracket it."""
+    requires(not db_sealed())
+    requires(len(db_rows("grid_time_label")) == 0 and len(db_rows("water_level")) == 0)
+    requires(len(time_grid) >= 2)
+    requires(forall(0, len(time_grid), lambda j: forall(0, j, lambda i: time_grid[i] < time_grid[j])))
+    # Loaded(db) facts established by populate_grid_time: the grid without its closing instant lies within the
+    # span of the staged water levels, of which there are at least two
+    requires(uf_int("n_staged_wl") >= 2)
+    requires(uf_int("min_staged_wl") <= time_grid[0] and time_grid[len(time_grid) - 2] <= uf_int("max_staged_wl"))
+    modifies("__db__")
+    ghost(after="zeta_t = np.array(zeta_t)", let="g_t", do=lambda: zeta_t)
+    ghost(after="zeta_t = np.array(zeta_t)", let="g_z", do=lambda: zeta_mm)
+    ghost(after="gap_i = ", let="g_min", do=lambda: time_steps.min())
+    ghost(after="valid_intervals = [", do=lambda: cut(
+        len(valid_intervals) == len(gap_i) + 1
+        and forall(0, len(valid_intervals), lambda k: valid_intervals[k][2] == k + 1
+                   and valid_intervals[k][0] == st_start(time_grid, zeta_t, gap_i, k)
+                   and valid_intervals[k][1] == st_end(time_grid, zeta_t, gap_i, k))))
+    loop(0, inv=lambda it: len(data_intervals) == len(time_grid) and forall(0, len(time_grid), lambda i:
+         ((data_intervals[i] == -1 and forall(0, it, lambda k: not (st_start(time_grid, zeta_t, gap_i, k) <= time_grid[i]
+                                                                    and time_grid[i] <= st_end(time_grid, zeta_t, gap_i, k))))
+          or (1 <= data_intervals[i] and data_intervals[i] <= it
+              and st_start(time_grid, zeta_t, gap_i, data_intervals[i] - 1) <= time_grid[i]
+              and time_grid[i] <= st_end(time_grid, zeta_t, gap_i, data_intervals[i] - 1)))
+         and implies(it >= 1 and time_grid[i] <= st_end(time_grid, zeta_t, gap_i, it - 1),
+                     data_intervals[i] != -1 or in_gap(zeta_t, g_min, time_grid[i]))))
+    ghost(before="valid_mask = ", let="g_lab", do=lambda: data_intervals)
+    ghost(after="valid_mask = ", let="g_src", do=lambda: np.nonzero(valid_mask)[0])
+    ensures(len(g_t) == len(g_z) and len(g_t) >= 2)
+    ensures(forall(0, len(g_t) - 1, lambda s: g_min <= g_t[s + 1] - g_t[s]))
+    ensures(exists(0, len(g_t) - 1, lambda s: g_min == g_t[s + 1] - g_t[s]))
+    ensures(len(g_lab) == len(time_grid))
+    ensures(forall(0, len(time_grid), lambda i: (g_lab[i] == -1) == in_gap(g_t, g_min, time_grid[i])))
+    ensures(forall(0, len(time_grid), lambda j: forall(0, j, lambda i: implies(
+        g_lab[i] != -1 and g_lab[j] != -1, (g_lab[i] != g_lab[j]) == separated(g_t, g_min, time_grid[i], time_grid[j])))))
+    # the labelled instants, in order
+    ensures(forall(0, len(g_src), lambda r: 0 <= g_src[r] and g_src[r] < len(time_grid) and g_lab[g_src[r]] != -1))
+    ensures(forall(0, len(g_src), lambda r2: forall(0, r2, lambda r: g_src[r] < g_src[r2])))
+    ensures(forall(0, len(time_grid), lambda i: implies(g_lab[i] != -1, exists(0, len(g_src), lambda r: g_src[r] == i))))
+    ensures(len(db_rows("grid_time_label")) == len(g_src))
+    ensures(forall(0, len(g_src), lambda r: db_rows("grid_time_label")[r][0] == g_lab[g_src[r]]
+                   and db_rows("grid_time_label")[r][1] == time_grid[g_src[r]]))
+    # water levels: every labelled instant but the closing one
+    ensures(len(g_src) >= 1 and g_src[len(g_src) - 1] == len(time_grid) - 1)
+    ensures(len(db_rows("water_level")) == len(g_src) - 1)
+    ensures(forall(0, len(g_src) - 1, lambda r: db_rows("water_level")[r][0] == time_grid[g_src[r]]
+                   and bracketed(g_t, g_z, time_grid[g_src[r]], db_rows("water_level")[r][1])))
